@@ -109,6 +109,8 @@ def leaf_classes(a, b):
             # equal sign, equal digit count: digits compared lexicographically from the LEAST significant byte
             if (a[2] < b[2]) != (int.from_bytes(a[2], "little") < int.from_bytes(b[2], "little")):
                 cls.add("C12-big-lexicographic")
+    if {ka, kb} <= {"i", "g", "f"} and any(t[0] == "g" and t[2] and t[2][-1] == 0 for t in (a, b)):
+        cls.add("C12-padded-big")
     if {ka, kb} <= {"i", "g", "f"} and "f" in (ka, kb) and ka != kb:
         n = ival(a) if ka != "f" else ival(b)
         if abs(n) > 2**53:
@@ -161,7 +163,7 @@ def expected(a, b):
     return etf.erl_cmp(va, vb)
 
 
-def noncanonical(t):
+def noncanonical(t, padded_ok=False):
     """terms whose representation is not what the wire or the constructors produce for their value (outside wf for
     the order properties): improper list with a list/nil tail, non-minimal big digits, integers that fit i64 held as bigs
     below the i32 boundary, unused low bits of a bit-string set"""
@@ -169,6 +171,8 @@ def noncanonical(t):
     if k == "L":
         return not t[1] or t[2][0] in ("l", "n", "L") or any(noncanonical(x) for x in t[1]) or noncanonical(t[2])
     if k == "g":
+        if padded_ok and len(t[2]) > 0 and t[2][-1] == 0:
+            return False          # a padded big integer: what the decoder returns for a non-minimal encoding
         return (len(t[2]) > 0 and t[2][-1] == 0) or len(t[2]) == 0 or -2**31 <= etf.big_value(t[1], t[2]) < 2**31
     if k == "B":
         return bool(t[1]) and (t[1][-1] & ((1 << (8 - t[2])) - 1)) != 0
